@@ -146,7 +146,7 @@ def run(ctx):
     n = 120 if ctx.thorough() else 12
     bursts = [gen_burst(r, r.choice([4, 8, 16]), r.choice([200, 1000, 3000])) for _ in range(n)]
     bursts.insert(0, [["u", "s", "h:200", "m:7", "g+:pre"], ["u", "h:200", "g+:pre", "g-:pre", "ur", "ug"]])
-    bursts += [fresh_key_burst(r, 8, 3000) for _ in range(6 if ctx.thorough() else 2)]
+    bursts += [fresh_key_burst(r, 8, 12000) for _ in range(8 if ctx.thorough() else 3)]
     bursts += [big_sample_burst(r, 8, 400) for _ in range(3 if ctx.thorough() else 1)]
     run_bursts(ctx, bursts)
     if ctx.thorough():
